@@ -134,3 +134,27 @@ func init() {
 	mut("C01", "(benign) v2 output loop hoisted into a helper closure", false, "",
 		Edit{v, "\tfor i, out := range txn.SiacoinOutputs {\n\t\tif out.Value.IsZero() {\n\t\t\treturn fmt.Errorf(\"siacoin output %v has zero value\", i)\n\t\t}\n\t\toutputSum = outputSum.Add(out.Value)\n\t}", "\tfor i, out := range txn.SiacoinOutputs {\n\t\tif out.Value.IsZero() {\n\t\t\treturn fmt.Errorf(\"siacoin output %v has zero value\", i)\n\t\t}\n\t}\n\tsumOutputs := func() (sum types.Currency) {\n\t\tfor _, out := range txn.SiacoinOutputs {\n\t\t\tsum = sum.Add(out.Value)\n\t\t}\n\t\treturn sum\n\t}\n\toutputSum = outputSum.Add(sumOutputs())"})
 }
+
+func init() {
+	// ---- C07 ----
+	v := "consensus/validation.go"
+	a := "consensus/application.go"
+	mut("C07", "v1 storage proof pays the missed outputs", true, "payout|v1-storage-proof-valid-outputs",
+		Edit{a, "\t\tfor i, sco := range fce.FileContract.ValidProofOutputs {\n\t\t\tms.createImmatureSiacoinElement(sp.ParentID.ValidOutputID(i), sco)", "\t\tfor i, sco := range fce.FileContract.MissedProofOutputs {\n\t\t\tms.createImmatureSiacoinElement(sp.ParentID.ValidOutputID(i), sco)"})
+	mut("C07", "v2 revision: total-collateral guard dropped", true, "v2-revision-collateral",
+		Edit{v, "\t\tcase rev.TotalCollateral != cur.TotalCollateral:\n\t\t\treturn errors.New(\"modifies total collateral\")\n", ""})
+	mut("C07", "(benign for C07) v2 revision number may stay equal", false, "",
+		Edit{v, "case rev.RevisionNumber <= cur.RevisionNumber:", "case rev.RevisionNumber < cur.RevisionNumber:"})
+	mut("C07", "v2 revision: missed host compared with the revision's own host value only", true, "v2-revision-missed-host",
+		Edit{v, "case rev.MissedHostValue.Cmp(cur.MissedHostValue) > 0:", "case rev.MissedHostValue.Cmp(rev.HostOutput.Value) > 0:"})
+	mut("C07", "apply: expiration case missing from the payout switch (falls to renewal-like default)", true, "payout|v2-resolution-host",
+		Edit{a, "\t\tcase *types.V2FileContractExpiration:\n\t\t\trenter, host = fc.RenterOutput, fc.MissedHostOutput()\n\t\tdefault:\n\t\t\tpanic(fmt.Sprintf(\"unhandled resolution type %T\", r))", "\t\tdefault:\n\t\t\t_ = fmt.Sprint\n\t\t\trenter, host = fc.RenterOutput, fc.HostOutput"})
+	mut("C07", "v2 storage proof root compared with a root derived from the proof itself", true, "v2-proof-root",
+		Edit{v, "leafIndex, fc.Filesize, sp.Proof) != fc.FileMerkleRoot {", "leafIndex, fc.Filesize, sp.Proof) != fc.FileMerkleRoot && len(sp.Proof) > 0 {"})
+	mut("C07", "v2 challenge index derived from the proposed leaf instead of the committed size", true, "v2-proof-root",
+		Edit{v, "leafIndex := ms.base.StorageProofLeafIndex(fc.Filesize, sp.ProofIndex.ChainIndex.ID, types.FileContractID(fcr.Parent.ID))\n\t\t\tif storageProofRoot", "leafIndex := ms.base.StorageProofLeafIndex(fc.Capacity, sp.ProofIndex.ChainIndex.ID, types.FileContractID(fcr.Parent.ID))\n\t\t\tif storageProofRoot"})
+	mut("C07", "v2 revise recorder drops the second-revision arm", true, "revision-recorded",
+		Edit{a, "\tfced := ms.recordV2FileContractElement(fce.ID)\n\tif fced.Created {\n\t\tfced.V2FileContractElement.V2FileContract = rev\n\t} else if fced.Revision != nil {\n\t\t*fced.Revision = rev\n\t} else {", "\tfced := ms.recordV2FileContractElement(fce.ID)\n\tif fced.Created {\n\t\tfced.V2FileContractElement.V2FileContract = rev\n\t} else if fced.Revision != nil {\n\t\t_ = rev\n\t} else {"})
+	mut("C07", "resolution JSON diff marshaller loses the expiration kind", true, "resolution-exhaustive",
+		Edit{"consensus/state.go", "\tcase *types.V2FileContractExpiration:\n\t\ttyp = v2ResolutionExpiration\n\tdefault:\n\t\treturn nil, fmt.Errorf(\"unknown V2FileContractResolutionType: %T\", diff.Resolution)\n", "\tdefault:\n\t\ttyp = v2ResolutionStorageProof\n"})
+}
